@@ -264,7 +264,7 @@ func decodeCalendarObjectList(ms *internal.MultiStatus) ([]CalendarObject, error
 		}
 
 		r := bytes.NewReader(calData.Data)
-		data, err := ical.NewDecoder(r).Decode()
+		data, err := decodeCalendar(r)
 		if err != nil {
 			return nil, err
 		}
@@ -389,7 +389,7 @@ func (c *Client) GetCalendarObject(ctx context.Context, path string) (*CalendarO
 		return nil, fmt.Errorf("caldav: expected Content-Type %q, got %q", ical.MIMEType, mediaType)
 	}
 
-	cal, err := ical.NewDecoder(resp.Body).Decode()
+	cal, err := decodeCalendar(resp.Body)
 	if err != nil {
 		return nil, err
 	}
